@@ -298,8 +298,10 @@ func (p proxyHandler) handleRequest(rw http.ResponseWriter, req *http.Request) {
 	}
 
 	// after stripping all the hop-by-hop connection headers above, add back any
-	// necessary for protocol upgrades, such as for websockets.
-	if resUpType != "" {
+	// necessary for protocol upgrades, such as for websockets: on the response that
+	// switches protocols - an Upgrade field on any other response only advertises what
+	// this hop's peer could speak.
+	if resUpType != "" && res.StatusCode == http.StatusSwitchingProtocols {
 		res.Header.Set("Connection", "Upgrade")
 		res.Header.Set("Upgrade", resUpType)
 	}
